@@ -13,8 +13,8 @@ use vpmodel::spec::ChainSpec;
 pub const DEF: PropDef = PropDef {
     id: "C03",
     level: "exploration",
-    rule: "one generated logical chain (base heights with 1..4-byte VarInts) written in the canonical single-file layout and in 1..2 generated layouts (1..60 files, file numbers up to 2^64-1, name padding 0..13 digits, any physical order, zero/garbage/magic-lookalike gaps, unindexed decoy blocks, holes beyond the 32 KiB buffer and beyond 4 GiB, foreign index keys, extra directory entries, multi-table LevelDB); csvdump of every layout must be byte-identical to the canonical layout's and to the reference model. Non-trivial = (>=2 files or a non-identity physical order) and >=1 backward seek induced by the height order; distinct by layout hash.",
-    assumptions: &["rusty-leveldb writes an index the tool (same crate, as reader) can open", "symlinked blk files are not generated (resolution of relative links is outside the statement)"],
+    rule: "one generated logical chain (base heights with 1..4-byte VarInts) written in the canonical single-file layout and in 1..2 generated layouts (1..60 files, file numbers up to 2^64-1, name padding 0..13 digits, any physical order, zero/garbage/magic-lookalike gaps, unindexed decoy blocks, holes beyond the 32 KiB buffer and beyond 4 GiB, foreign index keys, extra directory entries, multi-table LevelDB); csvdump of every layout must be byte-identical to the canonical layout's and to the reference model. Non-trivial = (>=2 files or a non-identity physical order) and >=1 backward seek induced by the height order; distinct by layout hash. Foreign index keys are a generated subset of twelve keys (file info, last file, flags, reindex marker, obfuscation key, tx index entries, keys sorting right before and after 'b').",
+    assumptions: &["rusty-leveldb writes an index the tool (same crate, as reader) can open", "blk files behind RELATIVE symlinks are not generated (absolute links, dangling, looping and directory links are)"],
     run,
     replay,
 };
